@@ -223,28 +223,33 @@ theorem verdict_accept_ts {cfg : Cfg} {now : Int} {l : Option Int} {old n : Noti
   · omega
 
 /-- what a single `gnmiUpdate1` can do to a target's tree and leaf counters (`key` = index of
-the update) -/
-inductive Effect (t : Target) (n : Noti) (key : Path) : Res × Target × Option Noti → Prop
+the update, `u` = the update applied) -/
+inductive Effect (cfg : Cfg) (t : Target) (n : Noti) (u : Upd) (key : Path) : Res × Target × Option Noti → Prop
   | rejected (r : Res) (t' : Target) : r = .stale ∨ r = .future ∨ r = .err → t'.tree = t.tree →
-      t'.latest = t.latest → t'.name = t.name → LcSame t t' → Effect t n key (r, t', none)
-  | replaced (t' : Target) (ev : Option Noti) (old : Noti) :
+      t'.latest = t.latest → t'.name = t.name → LcSame t t' → Effect cfg t n u key (r, t', none)
+  | replaced (t' : Target) (old : Noti) :
       key ≠ [] → lookup t.tree key = some old → old.ts ≤ n.ts →
       t'.tree = setLeaf t.tree key n → t'.latest = t.latest → t'.name = t.name → LcSame t t' →
-      (ev = none ∨ ev = some n) → Effect t n key (.ok, t', ev)
+      Effect cfg t n u key (.ok, t', some n)
+  | suppressed (t' : Target) (old : Noti) (ou : Upd) (ous : List Upd) :
+      key ≠ [] → lookup t.tree key = some old → old.ts ≤ n.ts →
+      t'.tree = setLeaf t.tree key n → t'.latest = t.latest → t'.name = t.name → LcSame t t' →
+      n.atomic = false → old.atomic = false → old.upd = ou :: ous → valueEqual ou.val u.val = true →
+      cfg.eventDriven = true → Effect cfg t n u key (.ok, t', none)
   | added (t' : Target) :
       key ≠ [] → lookup t.tree key = none → PMap.add t.tree key n = some t'.tree →
       t'.latest = t.latest → t'.name = t.name →
       t'.md.leaves = t.md.leaves + (if isMetaKey key then 0 else 1) →
       t'.md.added = t.md.added + (if isMetaKey key then 0 else 1) →
-      t'.md.deleted = t.md.deleted → Effect t n key (.ok, t', some n)
+      t'.md.deleted = t.md.deleted → Effect cfg t n u key (.ok, t', some n)
   | panicOld (t' : Target) (old : Noti) : lookup t.tree key = some old → old.upd = [] →
-      Effect t n key (.panic, t', none)
+      Effect cfg t n u key (.panic, t', none)
 
 theorem updateCore_effect (cfg : Cfg) (now : Int) (t t0 : Target) (realData : Bool) (path : Path)
     (n : Noti) (u : Upd) (hp : path ≠ [])
     (h1 : t0.tree = t.tree) (h2 : t0.latest = t.latest) (h3 : t0.name = t.name) (h4 : LcSame t t0)
     (hrd : realData = !isMetaKey path) :
-    Effect t n path (updateCore cfg now t0 realData path n u) := by
+    Effect cfg t n u path (updateCore cfg now t0 realData path n u) := by
   unfold updateCore
   cases hl : lookup t0.tree path with
   | some old =>
@@ -257,12 +262,17 @@ theorem updateCore_effect (cfg : Cfg) (now : Int) (t t0 : Target) (realData : Bo
       have hts := verdict_accept_ts hv
       simp only
       split
-      · exact .replaced _ _ old hp hl' hts (by simp [h1]) h2 h3 h4 (Or.inr rfl)
-      · split
+      · exact .replaced _ old hp hl' hts (by simp [h1]) h2 h3 h4
+      · rename_i hat
+        split
         · rename_i ho; exact .panicOld _ old hl' ho
-        · split
-          · exact .replaced _ _ old hp hl' hts (by simp [h1]) h2 h3 h4 (Or.inl rfl)
-          · exact .replaced _ _ old hp hl' hts (by simp [h1]) h2 h3 h4 (Or.inr rfl)
+        · rename_i ou ous ho
+          split
+          · rename_i hve
+            simp only [Bool.or_eq_true, not_or, Bool.not_eq_true] at hat
+            simp only [Bool.and_eq_true] at hve
+            exact .suppressed _ old ou ous hp hl' hts (by simp [h1]) h2 h3 h4 hat.1 hat.2 ho hve.1 hve.2
+          · exact .replaced _ old hp hl' hts (by simp [h1]) h2 h3 h4
   | none =>
     have hl' : lookup t.tree path = none := by rw [← h1]; exact hl
     simp only
@@ -285,7 +295,7 @@ theorem updateCore_effect (cfg : Cfg) (now : Int) (t t0 : Target) (realData : Bo
 
 theorem gnmiUpdate1_effect (cfg : Cfg) (now : Int) (t : Target) (n : Noti) (u : Upd) (us : List Upd)
     (hu : n.upd = u :: us) (ht : n.target ≠ "") :
-    Effect t n (updKey n u) (Target.gnmiUpdate1 cfg now t n) := by
+    Effect cfg t n u (updKey n u) (Target.gnmiUpdate1 cfg now t n) := by
   have hk' : updKey? n u = some (updKey n u) := by
     unfold updKey? updKey; exact joinKey?_eq _ _ ht
   unfold Target.gnmiUpdate1
@@ -560,37 +570,49 @@ theorem TsMono.of_grow_shrink {a b c : Target} (h1 : Grow a b) (h2 : Shrink b c)
   cases this
   exact h
 
+/-- consequences of an existing leaf being overwritten by `n` -/
+theorem overwrite_consequences {a b : Int} {t t' : Target} {n old : Noti} {key : Path}
+    (hi : TInvD a b t) (hn : n.upd ≠ []) (hk : key ≠ []) (hl : lookup t.tree key = some old)
+    (hts : old.ts ≤ n.ts) (h1 : t'.tree = setLeaf t.tree key n) (h4 : LcSame t t') :
+    TInvD a b t' ∧ Grow t t' := by
+  refine ⟨⟨?_, ?_, ?_, ?_, ?_⟩, ?_⟩
+  · rw [h1]; exact setLeaf_unique _ _ hi.unique
+  · rw [h1]
+    intro kv hkv
+    rcases mem_setLeaf.1 hkv with ⟨_, h, _⟩ | ⟨h, _⟩
+    · rw [h]; exact hn
+    · exact hi.hasUpd kv h
+  · rw [h1]
+    intro kv hkv
+    rcases mem_setLeaf.1 hkv with ⟨h, _, _⟩ | ⟨h, _⟩
+    · rw [h]; exact hk
+    · exact hi.nonEmpty kv h
+  · show t'.md.leaves - _ = _
+    rw [h1, nm_setLeaf, h4.1]; exact hi.lc
+  · show t'.md.leaves - _ = _
+    rw [h4.1, h4.2.1, h4.2.2]; exact hi.bal
+  · intro k o ho
+    by_cases hkk : k = key
+    · subst hkk
+      rw [hl] at ho; cases ho
+      exact ⟨n, by rw [h1]; exact lookup_setLeaf_same hi.unique hl, hts⟩
+    · exact ⟨o, by rw [h1, lookup_setLeaf_other hi.unique hkk]; exact ho, Int.le_refl _⟩
+
 /-- consequences of one non-panicking `gnmiUpdate1` -/
-theorem Effect.consequences {t : Target} {n : Noti} {key : Path} {r : Res × Target × Option Noti}
-    {a b : Int} (he : Effect t n key r) (hi : TInvD a b t) (hn : n.upd ≠ []) :
+theorem Effect.consequences {cfg : Cfg} {t : Target} {n : Noti} {u : Upd} {key : Path}
+    {r : Res × Target × Option Noti}
+    {a b : Int} (he : Effect cfg t n u key r) (hi : TInvD a b t) (hn : n.upd ≠ []) :
     r.1 ≠ .panic ∧ TInvD a b r.2.1 ∧ Grow t r.2.1 ∧ r.2.1.latest = t.latest ∧ r.2.1.name = t.name := by
   cases he with
   | rejected r t' hr h1 h2 h3 h4 =>
     refine ⟨?_, hi.of_tree_eq h1 h4, Grow.of_tree_eq h1, h2, h3⟩
     rcases hr with rfl | rfl | rfl <;> simp
-  | replaced t' ev old hk hl hts h1 h2 h3 h4 _ =>
-    refine ⟨by simp, ⟨?_, ?_, ?_, ?_, ?_⟩, ?_, h2, h3⟩
-    · rw [h1]; exact setLeaf_unique _ _ hi.unique
-    · rw [h1]
-      intro kv hkv
-      rcases mem_setLeaf.1 hkv with ⟨_, h, _⟩ | ⟨h, _⟩
-      · rw [h]; exact hn
-      · exact hi.hasUpd kv h
-    · rw [h1]
-      intro kv hkv
-      rcases mem_setLeaf.1 hkv with ⟨h, _, _⟩ | ⟨h, _⟩
-      · rw [h]; exact hk
-      · exact hi.nonEmpty kv h
-    · show t'.md.leaves - _ = _
-      rw [h1, nm_setLeaf, h4.1]; exact hi.lc
-    · show t'.md.leaves - _ = _
-      rw [h4.1, h4.2.1, h4.2.2]; exact hi.bal
-    · intro k o ho
-      by_cases hkk : k = key
-      · subst hkk
-        rw [hl] at ho; cases ho
-        exact ⟨n, by rw [h1]; exact lookup_setLeaf_same hi.unique hl, hts⟩
-      · exact ⟨o, by rw [h1, lookup_setLeaf_other hi.unique hkk]; exact ho, Int.le_refl _⟩
+  | replaced t' old hk hl hts h1 h2 h3 h4 =>
+    obtain ⟨x, y⟩ := overwrite_consequences hi hn hk hl hts h1 h4
+    exact ⟨by simp, x, y, h2, h3⟩
+  | suppressed t' old ou ous hk hl hts h1 h2 h3 h4 =>
+    obtain ⟨x, y⟩ := overwrite_consequences hi hn hk hl hts h1 h4
+    exact ⟨by simp, x, y, h2, h3⟩
   | added t' hk hl ha h2 h3 m1 m2 m3 =>
     refine ⟨by simp, ⟨add_unique hi.unique ha, ?_, ?_, ?_, ?_⟩, ?_, h2, h3⟩
     · rw [add_eq_some ha]
